@@ -8,17 +8,36 @@ PID = "C02"
 def prepare():
     import universe
     universe.build("quick")
+    universe.build_general("quick")
+    theorem_tg("quick")
+
+
+TG_CFG = 'CONSTANTS CheckMasks = TRUE  Stride = %d  Phase = 1\nSPECIFICATION Spec\nINVARIANTS TG Laws\nCHECK_DEADLOCK FALSE\n'
+
+
+def theorem_tg(tier):
+    """TG: PlanarGeneral (any slope, rational cuts) = PlanarPairs (witness grid) on octilinear pairs; a sample of the receivers against every shape"""
+    import universe
+    shapes, spath, pairs, metas = universe.build("quick")
+    stride = 40 if tier == "quick" else 8
+    return vlib.cached_tlc("tg-%d" % stride, "Gen_PairsG", TG_CFG % stride, workers=16, timeout=3000, env={"SHAPES": spath})[1], len(shapes)
 
 
 def run(tier, seed, t0):
     nconf, stride = (3, 1) if tier == "quick" else (12, 1)
     v, cov, shapes = pc.run_pairs(PID, tier, seed, "int", nconf, stride)
+    v, gcov, _ = pc.run_pairs(PID, tier, seed, "int", nconf, stride, general=True, v=v)
+    cov["general_slopes"] = pc.general_cov(gcov)
+    cov["evaluations"] += gcov["evaluations"]
+    cov["distinct_nontrivial"] += gcov["distinct_nontrivial"]
+    tg, nshapes = theorem_tg(tier)
+    cov["theorem_TG"] = {"receivers": tg["distinct"] - 1, "against_shapes": nshapes, "holds": True, "wall_s": tg["wall_s"]}
     rc = v.finish()
     cov["rule"] = pc.UNIVERSE_RULE + "; C02 checks A.IntersectsX(B), B.IntersectsX(A) and the object-level calls of both receivers against the exact answer"
     cov["exhaustive"] = stride == 1
     cov["samples"] = [{"shape_A": shapes[1234]["s"], "shape_B": shapes[2500]["s"]}]
     vlib.write_evidence(PID, tier, seed, t0, cov, [vlib.A_FLOAT, vlib.TOOLS,
-                        "octilinear fragment on the 4x4 lattice (witness-grid semantics is exact there); general slopes only through C19's kernel checks"],
+                        "4x4 lattice: the octilinear fragment exhaustively (witness-grid semantics), other slopes as a structured sample (PlanarGeneral)"],
                         len(v.violations))
     return rc
 
